@@ -337,6 +337,7 @@ CONSTANTS Keys <- MCKeys
  InitConts <- {inits}
  HasDispose = {hasd}
  BigStep = {big}
+ Deviations <- {dev}
 {props}
 {emit}
 """
@@ -353,6 +354,7 @@ CONSTANTS Keys <- TrKeys
  InitConts <- TrInitConts
  HasDispose = {hasd}
  BigStep = TRUE
+ Deviations <- TrDev
 CHECK_DEADLOCK FALSE
 """
 EV_DEFAULT = {"t": 0, "o": 0, "e": "", "op": NONE, "k": NONE, "v": 0, "x": 0, "held": False, "res": NONE, "rk": [],
@@ -1115,6 +1117,9 @@ for _f in ("_seq_shard", "_conc_emit", "_conc_run_shard", "_pm_shard", "_pc_emit
 
 RACE_OPS = [("goc", "a"), ("goc", "b"), ("req", "a"), ("req", "b"), ("clear", NONE), ("len", NONE)]
 RACE_FIXED = [
+    {"np": 1, "init": ["a"], "threads": [[("goc", "a")], [("clear", NONE)]]},
+    {"np": 2, "init": ["a"], "threads": [[("req", "a")], [("clear", NONE)]]},
+    {"np": 2, "init": ["a", "b"], "threads": [[("goc", "a")], [("goc", "b")], [("clear", NONE)]]},
     {"np": 1, "init": [], "threads": [[("goc", "a")], [("goc", "a")], [("goc", "a")]]},
     {"np": 2, "init": [], "threads": [[("goc", "a"), ("goc", "b")], [("goc", "b"), ("goc", "a")]]},
     {"np": 1, "init": [], "threads": [[("req", "a")], [("req", "b")]]},
@@ -1147,6 +1152,22 @@ def random_container_programs(rng, n):
     return out
 
 
+PAIR_OPS = [("get", "a"), ("getd", "a"), ("has", "a"), ("set", "a"), ("set", "b"), ("set", "c"), ("del", "a"),
+            ("clear", NONE), ("len", NONE), ("keys", NONE)]
+
+
+def pair_programs():
+    """Every unordered pair of single operations as a 2-thread program on a full container
+    (a, b cached, maxsize 2): explored with LINE-level yield points, i.e. with preemptions INSIDE the
+    lock-held sections.  Whether the other thread "would block" there is never assumed: it is run,
+    and it is disabled only once it has really reached acquire() of the lock somebody holds."""
+    out = []
+    for i, x in enumerate(PAIR_OPS):
+        for y in PAIR_OPS[i:]:
+            out.append(prog_key(2, [["a", 101], ["b", 102]], [[list(x)], [list(y)]]))
+    return out
+
+
 def _chunks(xs, n):
     n = max(1, n)
     k = (len(xs) + n - 1) // n
@@ -1154,9 +1175,12 @@ def _chunks(xs, n):
 
 
 def _stage1_conc(args):
-    name, cfg, need = args
-    r = run_tlc("MC_LRUConc", cfg, workers=6, heap="3g", coverage=True, timeout=7200)
-    return {"name": name, "violated": r.violated, "distinct": r.distinct, "generated": r.generated,
+    name, cfg, need = args[:3]
+    expect = args[3] if len(args) > 3 else None
+    r = run_tlc("MC_LRUConc", cfg, workers=6, heap="3g", coverage=True, timeout=7200, expect_fail=bool(expect))
+    if expect and r.error and not r.violated:
+        raise tlc.MachineryError(f"{name}: {r.error}")
+    return {"name": name, "expect": expect, "violated": r.violated, "distinct": r.distinct, "generated": r.generated,
             "depth": r.depth, "wall": r.wall, "coverage": {k: v[1] for k, v in r.coverage.items()}, "need": need}
 
 
@@ -1227,7 +1251,7 @@ class _PartB:
                           ms="MCMaxSizes", hasd="TRUE")]
         if not quick:
             emit_cfgs.append(dict(threads="T2", n=2, alpha="MCAlphabetSmall", inits="MCInitConts", ms="MCMaxSizes", hasd="TRUE"))
-        self.emit = pool.map_async(_conc_emit, [CONC_MC_CFG.format(spec="Spec", big="TRUE", props="", emit="ACTION_CONSTRAINT Emit", **kw)
+        self.emit = pool.map_async(_conc_emit, [CONC_MC_CFG.format(spec="Spec", big="TRUE", dev="NoDev", props="", emit="ACTION_CONSTRAINT Emit", **kw)
                                                 for kw in emit_cfgs])
 
     def submit2(self, pool, rep, quick, rng):
@@ -1246,7 +1270,10 @@ class _PartB:
         rnd = random_container_programs(rng, 32 if quick else 240)
         jobs += [([(k, None) for k in ch], 1, 30 if quick else 200, 10 if quick else 60, rep.seed + 7, True)
                  for ch in _chunks(rnd, NPROC // 2 if quick else NPROC)]
-        self.nprog = len(sel) + len(rnd)
+        pairs = pair_programs()
+        jobs += [([(k, None) for k in ch], 2 if not quick else 1, None, 2, rep.seed + 11, True) for ch in _chunks(pairs, NPROC)]
+        rep.extra["conc_pair_programs_line_level"] = len(pairs)
+        self.nprog = len(sel) + len(rnd) + len(pairs)
         self.run = pool.map_async(_conc_run_shard, jobs)
 
     def collect(self, pool, rep, quick, rng):
@@ -1298,8 +1325,12 @@ class _PartC:
         self.emit = pool.map_async(_pc_emit, [(c, 0, 1) for c in sc_cfgs])
         self.rprogs = race_programs(rng, 38 if quick else 300)
         jobs = [(ch, 2, 120 if quick else 600, 3 if quick else 20, rep.seed, False) for ch in _chunks(self.rprogs, NPROC)]
+        nfix = len(RACE_FIXED)
+        # the hand-picked races (lookup of a cached key against clear(), equal keys, eviction under a request) get
+        # line-level preemption inside connection_from_* and the container without a schedule limit
+        jobs += [(ch, 1, None, 4, rep.seed + 2, True) for ch in _chunks(self.rprogs[:nfix], NPROC)]
         jobs += [(ch, 1, 50 if quick else 400, 6 if quick else 30, rep.seed + 1, True)
-                 for ch in _chunks(self.rprogs[:16 if quick else 160], NPROC // 2)]
+                 for ch in _chunks(self.rprogs[nfix:16 if quick else 160], NPROC // 2)]
         self.race = pool.map_async(_race_shard, jobs)
 
     def submit2(self, pool, rep, quick, rng):
@@ -1375,9 +1406,15 @@ def _stage1_jobs(quick):
                       ("LRUConc T2x2 get-or-create small-step", dict(threads="T2", n=2, alpha="MCAlphabetPM", inits="MCInitPM",
                                                                      ms="MCMaxSizesQ", hasd="FALSE"), ["Start", "Step", "Rel", "Ret"])]
     for name, kw, need in conc_cfgs:
-        cfg = CONC_MC_CFG.format(spec="Spec", big="FALSE", props="\n".join(CONC_PROPS), emit="", **kw)
+        cfg = CONC_MC_CFG.format(spec="Spec", big="FALSE", dev="NoDev", props="\n".join(CONC_PROPS), emit="", **kw)
         jobs.append(("conc", _stage1_conc, (name, cfg, need)))
-    live_cfg = CONC_MC_CFG.format(spec="FairSpec", big="FALSE", props="PROPERTY Termination", emit="", threads="T2", n=1,
+    # vacuity guard: an unguarded clear() must be refuted by Linearizable and by ExactlyOnce
+    for inv, alpha, hasd in (("Linearizable", "MCAlphabetClear", "TRUE"), ("ExactlyOnce", "MCAlphabetClear", "TRUE"),
+                             ("Linearizable", "MCAlphabetClearPM", "FALSE")):
+        cfg = CONC_MC_CFG.format(spec="Spec", big="FALSE", dev="DevClearWithoutLock", props="INVARIANT " + inv, emit="",
+                                 threads="T2", n=1, alpha=alpha, inits="MCInitA", ms="MCMaxSizesQ", hasd=hasd)
+        jobs.append(("conc", _stage1_conc, (f"LRUConc deviation ClearWithoutLock ({alpha[2:]}) must break {inv}", cfg, [], inv)))
+    live_cfg = CONC_MC_CFG.format(spec="FairSpec", big="FALSE", dev="NoDev", props="PROPERTY Termination", emit="", threads="T2", n=1,
                                   alpha="MCAlphabet", inits="MCInitConts", ms="MCMaxSizes", hasd="TRUE")
     jobs.append(("conc", _stage1_conc, ("LRUConc T2x1 full alphabet, Termination under weak fairness", live_cfg, [])))
     pc_runs = [("PoolCache T2 MaxOps=3 O2", pc_cfg(T="T2", N=3, O="O2"), None),
@@ -1404,6 +1441,10 @@ def _stage1_collect(rep, futs):
         if kind == "lru":
             if o["violated"]:
                 rep.violation("ReferenceInconsistent", f"TLC: {o['violated']} violated in LRU.tla")
+        elif kind == "conc" and o.get("expect"):
+            if o["violated"] != [o["expect"]]:
+                raise tlc.MachineryError(f"{o['name']}: expected TLC to report {o['expect']}, got {o['violated']} "
+                                         "(the rule has no teeth)")
         elif kind == "conc":
             if o["violated"]:
                 rep.violation("DesignModel", f"TLC: {o['violated']} violated in {o['name']}")
